@@ -24,6 +24,7 @@ const (
 	offDeep = 100000 // deep input index
 	offM3   = 200000 // containment scenario
 	offM4   = 300000 // cancellation scenario
+	offM5   = 400000 // user-function placement (monitor 5)
 	m1Batch = 200    // cases per child process
 	maxPar  = 6      // child processes in flight per shard
 	deepPar = 4
@@ -84,6 +85,13 @@ func TestCheck(t *testing.T) {
 		runM4(run)
 	}
 	var wg sync.WaitGroup
+	if os.Getenv("C15_SKIP_M5") == "" && onlySection(run, offM5) {
+		wg.Add(1)
+		go func() {
+			defer wg.Done()
+			runM5(run)
+		}()
+	}
 	if os.Getenv("C15_SKIP_M1") == "" {
 		wg.Add(1)
 		go func() {
